@@ -493,6 +493,55 @@ pub fn take_closes() -> Vec<i32> {
     std::mem::take(&mut global().closes)
 }
 
+/// Real descriptors of the harness process that the code under test obtained from a real system
+/// call (pipe2(2) in `PipeOp::fallback`) and that the simulated kernel therefore has to treat as
+/// issued: `.0` = open now, `.1` = registered earlier and closed since (a second close of such a
+/// number is recorded and answered with EBADF, never passed to the real close(2), which could
+/// hit whatever reuses the number).
+static REAL_FDS: Mutex<(Vec<i32>, Vec<i32>)> = Mutex::new((Vec::new(), Vec::new()));
+
+fn real_fds() -> MutexGuard<'static, (Vec<i32>, Vec<i32>)> {
+    match REAL_FDS.lock() {
+        Ok(g) => g,
+        Err(e) => e.into_inner(),
+    }
+}
+
+/// Register a real descriptor after the fact. From now on a `close(fd)` through hook A is
+/// recorded (like one of a fake descriptor) *and* carried out, and so is an IORING_OP_CLOSE
+/// naming it as a regular descriptor at the moment the simulated kernel consumes it.
+pub fn add_real_fd(fd: i32) {
+    let mut r = real_fds();
+    r.1.retain(|x| *x != fd);
+    if !r.0.contains(&fd) {
+        r.0.push(fd);
+    }
+}
+
+/// The registered real descriptors that are still open; they are forgotten (the caller closes
+/// them), as is the list of closed ones. Called at the end of a case.
+pub fn take_real_fds() -> Vec<i32> {
+    let mut r = real_fds();
+    r.1.clear();
+    std::mem::take(&mut r.0)
+}
+
+/// Really close `fd` if it is a registered real descriptor that is open. `Some(true)`: closed
+/// now; `Some(false)`: was registered, already closed; `None`: not one of them.
+fn close_real_fd(fd: i32) -> Option<bool> {
+    let mut r = real_fds();
+    if let Some(pos) = r.0.iter().position(|x| *x == fd) {
+        r.0.remove(pos);
+        r.1.push(fd);
+        unsafe { libc::close(fd) };
+        Some(true)
+    } else if r.1.contains(&fd) {
+        Some(false)
+    } else {
+        None
+    }
+}
+
 impl Sim {
     /// Called at the start of every hooked call that concerns this ring: if the ring descriptor
     /// has been closed in the meantime (`OwnedFd` closes without a hook), say so once, *before*
@@ -718,12 +767,20 @@ impl Sim {
             }
             OP_CLOSE if sqe.user_data == 3 => {
                 // Background close issued by `AsyncFd::drop`.
+                if sqe.file_index == 0 {
+                    let _ = close_real_fd(sqe.fd);
+                }
                 self.log.push(Ev::Consumed { sqe, req: None });
                 if !skip_ok {
                     self.post(Cqe { user_data: sqe.user_data, res: 0, flags: 0 });
                 }
             }
             _ => {
+                if sqe.opcode == OP_CLOSE && sqe.file_index == 0 {
+                    // IORING_OP_CLOSE of a `close()` future: executed when consumed (the driver
+                    // posts its completion); a real descriptor is really closed.
+                    let _ = close_real_fd(sqe.fd);
+                }
                 let req = self.next_req;
                 self.next_req += 1;
                 self.log.push(Ev::Consumed { sqe, req: Some(req) });
@@ -1161,7 +1218,17 @@ unsafe fn hook_close(fd: c_int) -> Option<c_int> {
         g.closes.push(fd);
         return Some(0);
     }
-    None
+    match close_real_fd(fd) {
+        Some(true) => {
+            g.closes.push(fd);
+            Some(0)
+        }
+        Some(false) => {
+            g.closes.push(fd);
+            err(libc::EBADF)
+        }
+        None => None,
+    }
 }
 
 /// Mark the ring with descriptor `fd` as gone (called by drivers after dropping the `Ring`).
